@@ -10,9 +10,13 @@ variable {κ : Type}
 
 /-- when the signal is a directive change, the machines (which `Parser.parse` stores) and the sinks are
 still related, with whatever flags -/
+def ScanIdle : Regs → Prop
+  | .scanner s => s.tagStart = none
+  | .lexer _ => True
+
 def DirOk (δ : Nat) (K : Nat → κ → κ → Prop) (rs rw : M κ × Option Signal) : Prop :=
   ∀ dr bm, rs.2 = some (.directive dr bm) →
-    ∃ ab'', MRel δ 0 0 ab'' .none rs.1 rw.1 ∧ K 0 rs.1.x.sink rw.1.x.sink
+    ∃ ab'', MRel δ 0 0 ab'' .none rs.1 rw.1 ∧ K 0 rs.1.x.sink rw.1.x.sink ∧ ScanIdle rs.1.r
 
 /-- outcome of running the same action / action list / arm body in both runs. `must`: the signal stops
 the caller (written with `?`), so nothing is needed about the machines when there is one. -/
@@ -398,7 +402,7 @@ theorem lexEmitTagLexeme_sim (hops : OpsSim env.ops inpS inpW δ K) {ab ab' : Ab
     | .error e => exact ⟨rfl, (fun hh => by rcases hh with hh | hh <;> cases hh), fun _ _ hh => by cases hh⟩
     | .ok .lex => exact ⟨trivial, fun _ => ⟨⟨hc, hl', rfl, hpc⟩, hK'⟩, fun _ _ hh => by cases hh⟩
     | .ok .scan =>
-      refine ⟨⟨rfl, ?_⟩, (fun hh => by rcases hh with hh | hh <;> cases hh), fun _ _ _ => ⟨ab', ⟨hc, hl', rfl, hpc⟩, hK'⟩⟩
+      refine ⟨⟨rfl, ?_⟩, (fun hh => by rcases hh with hh | hh <;> cases hh), fun _ _ _ => ⟨ab', ⟨hc, hl', rfl, hpc⟩, hK', trivial⟩⟩
       exact ⟨hc.cdataAllowed, hc.lastTextType, hc.lastStartTagNameHash, rfl, rfl⟩
 
 /-- `emit_tag` -/
